@@ -48,6 +48,16 @@ class Prog:
         return '\n'.join(self.lines) + '\n'
 
 
+LAYOUTS_DERIVED = ['v2', 'v3', 'r2', 'r3', 'h2', 'x2', 'b3', 'H2', 's2', 'S2', 'n2', 'd2', 'k2', 'k3', 'x1', 's1', 'n1']
+
+
+def pick_layout(rng, plain=3):
+    """buffer layout of one request: mostly the plain ones, otherwise one of the derived-type constructors of harness/apirun.c"""
+    if rng.chance(plain, plain + 2):
+        return rng.choice(['c', 'c', 't'])
+    return rng.choice(LAYOUTS_DERIVED)
+
+
 def lst(xs):
     return ','.join(str(x) for x in xs) if xs else '-'
 
@@ -222,7 +232,7 @@ def emit_put(p, rng, v, mt, coll, parts, cellvals, tagset, use_imap=True):
         form = choose_form(rng, st, ct, sd, family)
         n = nelems(ct)
         vals = [cellvals[c] for c in region_cells(st, ct, sd)]
-        lay = rng.choice(['c', 'c', 't', 'v2', 'v3', 'r2', 'r3'])
+        lay = pick_layout(rng)
         imap = None
         if form == 'varm':
             if use_imap and rng.chance(1, 2) and len(ct) >= 2:
@@ -263,6 +273,8 @@ def emit_put(p, rng, v, mt, coll, parts, cellvals, tagset, use_imap=True):
         else:
             texts[r] = rw_text('put', form, coll, v, mt, lay, st, ct, sd, imap, vals)
         tagset.add(form)
+        if lay[0] in 'hxbHsSndk':
+            tagset.add('buftype-' + lay[0])
         if lay.startswith('v'):
             tagset.add('buftype-gaps')
         if lay.startswith('r'):
@@ -300,7 +312,7 @@ def emit_reads(p, rng, v, numrecs, coll, nprocs, tagset, written=None):
         # unwritten cells hold fill values or unspecified bytes: read them in the native type only
         # (conversion of those is C09's business, not this stream's)
         mt = rng.choice(MT_FOR[v.xt]) if allw else NATIVE[v.xt]
-        lay = rng.choice(['c', 't', 'v2', 'r2'])
+        lay = pick_layout(rng, plain=2)
         if family != 'varn' and rng.chance(1, 6):
             mt = NATIVE[v.xt]
             texts[r] = rw_text('get', 'var', coll, v, mt, rng.choice(['c', 't']), None, None, None, None, None)
@@ -796,7 +808,7 @@ def gen_mix_program(rng, path, nprocs, fmt=None, hints='-'):
                     reqn += 1
                     nm = 'q%d' % reqn
                     names[r].append(nm)
-                    texts[r] = nb_text(kind, nm, 'vars', v, mt, rng.choice(['c', 't', 'v2']) if kind == 'iput' else rng.choice(['c', 't']), st, ct, sd, None, vals)
+                    texts[r] = nb_text(kind, nm, 'vars', v, mt, pick_layout(rng) if kind == 'iput' else rng.choice(['c', 't']), st, ct, sd, None, vals)
                 p.per_rank(texts)
             p.tags.add('mix-nbput-%dreq' % min(maxq, 6))
             p.all('inq_nreqs')
@@ -860,7 +872,7 @@ def gen_mix_program(rng, path, nprocs, fmt=None, hints='-'):
                     reqn += 1
                     nm = 'g%d' % reqn
                     names[r].append(nm)
-                    texts[r] = nb_text('iget', nm, 'vars', v, (rng.choice(MT_FOR[v.xt]) if allw else NATIVE[v.xt]), rng.choice(['c', 't', 'v2']), st, ct, sd, None, None)
+                    texts[r] = nb_text('iget', nm, 'vars', v, (rng.choice(MT_FOR[v.xt]) if allw else NATIVE[v.xt]), pick_layout(rng), st, ct, sd, None, None)
                 p.per_rank(texts)
             p.tags.add('mix-iget-%dreq' % min(maxq, 6))
             if rng.chance(1, 2):
